@@ -1003,3 +1003,121 @@ Proof.
   - unfold nonneg. cbn. repeat constructor; discriminate.
   - unfold nonneg. cbn. repeat constructor; discriminate.
 Qed.
+
+(* ---- glue for props/C05.v ------------------------------------------------------ *)
+Lemma share_price_from_init p f b k bals st0 h1 h2 : nonneg bals -> init p f b k bals = Ok st0 ->
+  ~ has_nested_loan (h1 ++ h2) -> PM (run st0 h1) (run st0 (h1 ++ h2)).
+Proof. intros Hn Hi Hu. destruct (init_good _ _ _ _ _ _ Hn Hi) as [G _]. apply (share_price_history _ _ _ G Hu). Qed.
+
+Lemma deposit_prorata u z sent st st' : Good st -> u <> VAULT -> 0 < supply st -> deposit u z sent st = Ok st' ->
+  (get (lp st') u - get (lp st) u) * backing st <= z * supply st /\
+  supply st' = supply st + (get (lp st') u - get (lp st) u) /\ bal st' = bal st + z.
+Proof.
+  intros G Hne Hp H. destruct (deposit_good _ _ _ _ _ G Hne H) as (_ & _ & Hpr & Hb & _). destruct (Hpr Hp). auto.
+Qed.
+
+Lemma withdraw_prorata u a st st' : Good st -> withdraw u a st = Ok st' ->
+  (bal st - bal st') * supply st <= a * backing st /\ get (ab st') u = get (ab st) u + (bal st - bal st') /\
+  supply st' = supply st - a.
+Proof. intros G H. destruct (withdraw_good _ _ _ _ G H) as (_ & _ & H1 & H2 & H3 & _). auto. Qed.
+
+Definition share_price_full_statement : Prop := forall st h, Good st -> PM st (run st h).
+
+Lemma w_st1_good : Good (run w_st0 [w_deposit]).
+Proof. apply (run_good [w_deposit] w_st0 w_st0_good). reflexivity. Qed.
+
+Lemma share_price_refuted_nested :
+  exists st h, Good st /\ has_nested_loan h /\ ~ PM st (run st h).
+Proof.
+  exists (run w_st0 [w_deposit]), [w_nested]. split; [apply w_st1_good|]. split; [reflexivity|].
+  intros HP. pose proof nested_witness_values as V. cbv zeta in V.
+  destruct V as (_ & S1 & S2 & B1 & B2 & _).
+  change (run (run w_st0 [w_deposit]) [w_nested]) with (run w_st0 [w_deposit; w_nested]) in HP.
+  unfold PM in HP. rewrite S1, S2, B1, B2 in HP. destruct HP as [_ HP]; [reflexivity|]. vm_compute in HP. apply HP. reflexivity.
+Qed.
+
+Lemma share_price_full_statement_refuted : ~ share_price_full_statement.
+Proof.
+  intros F. destruct share_price_refuted_nested as (st & h & G & _ & N). apply N. apply F. exact G.
+Qed.
+
+Definition deposit_withdraw_full_statement : Prop :=
+  forall u z sent st st1 st2, Good st -> u <> VAULT -> deposit u z sent st = Ok st1 ->
+    withdraw u (get (lp st1) u - get (lp st) u) st1 = Ok st2 -> get (ab st2) u - get (ab st1) u <= z.
+
+Lemma deposit_withdraw_refuted_donated_empty :
+  exists u z sent st st1 st2, Good st /\ u <> VAULT /\ supply st = 0 /\ 0 < backing st /\ deposit u z sent st = Ok st1 /\
+    withdraw u (get (lp st1) u - get (lp st) u) st1 = Ok st2 /\ z < get (ab st2) u - get (ab st1) u.
+Proof.
+  pose proof donation_witness_values as V. cbv zeta in V. destruct V as (HD & Hm & HW & S1 & B1 & Hpaid).
+  exists 6%nat, 2000, 2000, (run d_st0 [ODonate 7%nat 1000000]),
+         (run d_st0 [ODonate 7%nat 1000000; ODeposit 6%nat 2000 2000]),
+         (run d_st0 [ODonate 7%nat 1000000; ODeposit 6%nat 2000 2000; OWithdraw 6%nat 1000]).
+  split; [apply (run_good [ODonate 7%nat 1000000] d_st0 d_st0_good); reflexivity|].
+  split; [unfold VAULT; lia|]. split; [exact S1|]. split; [rewrite B1; reflexivity|]. split; [exact HD|].
+  rewrite Hm. split; [exact HW|]. rewrite Hpaid. reflexivity.
+Qed.
+
+(* ---- glue for props/C06.v ------------------------------------------------------ *)
+(* sum of protocol + flash fees over every loan of a script tree, at the fee shares of state st *)
+Fixpoint fees_in_a (st : state) (a : action) : Z :=
+  match a with
+  | ALoan z s => fee_p st z + fee_f st z + fees_in st s
+  | ATry s => fees_in st s
+  | _ => 0
+  end
+with fees_in (st : state) (s : script) : Z :=
+  match s with SNil => 0 | SCons a r => fees_in_a st a + fees_in st r end.
+
+(* full strength, for scripts without Try: the balance grows by the fees of EVERY loan completed within the transaction *)
+Definition loan_settles_full_statement : Prop :=
+  forall st z s st', Good st -> flash_loan ADV z (run_script z s) st = Ok st' ->
+    bal st + fee_p st z + fee_f st z + fees_in st s <= bal st'.
+
+Lemma loan_settles_refuted_nested : ~ loan_settles_full_statement.
+Proof.
+  intros F.
+  pose proof nested_witness_values as V. cbv zeta in V. destruct V as (HS & _ & _ & _ & _ & Hb1 & Hb2 & _).
+  specialize (F (run w_st0 [w_deposit]) 100000 (SCons (ALoan 800000 (SCons (APay VAULT 816000) SNil)) (SCons (APay VAULT 86000) SNil))
+                (run w_st0 [w_deposit; w_nested]) w_st1_good).
+  cbn [step w_nested run_script run_action bind] in HS.
+  assert (HF : flash_loan ADV 100000 (run_script 100000 (SCons (ALoan 800000 (SCons (APay VAULT 816000) SNil)) (SCons (APay VAULT 86000) SNil)))
+                 (run w_st0 [w_deposit]) = Ok (run w_st0 [w_deposit; w_nested])).
+  { destruct (flash_loan ADV 100000 _ (run w_st0 [w_deposit])) eqn:E; cbn [bind] in HS; try discriminate HS. exact HS. }
+  specialize (F HF). rewrite Hb1, Hb2 in F. vm_compute in F. apply F. reflexivity.
+Qed.
+
+Lemma loan_settles_unnested z s st st' : Inv st -> loan_free s = true ->
+  flash_loan ADV z (run_script z s) st = Ok st' ->
+  bal st + fee_p st z + fee_f st z <= bal st' /\ burned st' = burned st + fee_b st z /\ allf st' = allf st + fee_p st z /\
+  pend st' <= pend st + fee_p st z /\ counter st' = counter st /\ supply st' <= supply st.
+Proof.
+  intros I Hlf H. destruct (loan_settles _ _ _ _ _ (script_body_QLF z s Hlf) I H) as (A & B & C & D & E & F & _).
+  repeat split; assumption.
+Qed.
+
+Lemma router_loan_settles u z pre s st st' : Inv st -> loan_free s = true -> u <> ROUTER ->
+  router_loan u z pre s st = Ok st' ->
+  bal st + fee_p st z + fee_f st z <= bal st' /\ burned st' = burned st + fee_b st z /\ allf st' = allf st + fee_p st z /\
+  pend st' <= pend st + fee_p st z /\ counter st' = counter st /\ supply st' <= supply st /\ get (ab st') ROUTER = 0.
+Proof.
+  intros I Hlf Hu H. pose proof (router_keeps_nothing _ _ _ _ _ _ I Hu H) as HR.
+  unfold router_loan in H. bind_as H uu EH.
+  destruct (loan_settles _ _ _ _ _ (router_body_QLF u z pre s Hlf) I H) as (A & B & C & D & E & F & _). repeat split; auto.
+Qed.
+
+Lemma loan_outer_all_depths z s st st' : Inv st -> flash_loan ADV z (run_script z s) st = Ok st' ->
+  bal st + fee_p st z + fee_f st z <= bal st' /\ counter st' = counter st /\ supply st' <= supply st /\ Inv st'.
+Proof.
+  intros I H. destruct script_Q as [_ QS].
+  assert (HB : forall s1 s2, Inv s1 -> run_script z s s1 = Ok s2 -> Q s1 s2) by (intros; eauto).
+  destruct (loan_settles_outer _ _ _ _ _ HB I H) as (A & B & C & D & _).
+  split; [exact A|]. split; [exact B|]. split; [exact C|]. apply D.
+Qed.
+
+Lemma script_all_depths L s st st' : Inv st -> run_script L s st = Ok st' ->
+  Inv st' /\ counter st' = counter st /\ (0 < counter st -> supply st' <= supply st) /\ get (lp st) VAULT <= get (lp st') VAULT.
+Proof.
+  intros I H. destruct script_Q as [_ QS]. destruct (QS _ _ _ _ I H) as (A & B & _ & _ & _ & C & D).
+  split; [exact A|]. split; [exact B|]. split; [exact C|exact D].
+Qed.
